@@ -18,6 +18,10 @@ use deno_ast::diagnostics::DiagnosticSourceRange;
 
 mod cache;
 mod range_finder;
+#[cfg(deno_graph_verif)]
+pub use range_finder::VerifImportedExports;
+#[cfg(deno_graph_verif)]
+pub use range_finder::verif_imported_exports_add;
 mod swc_helpers;
 mod transform;
 mod transform_dts;
